@@ -29,7 +29,7 @@ const char *vprop_id = "C06";
 int vprop_fork = 1;
 int vprop_cpu_limit_s = 30;
 const char *vprop_class_names[V_NCLASS] = {
-  "plan_none", "plan_single", "plan_pair", "plan_kind", "plan_from_k", "failure_injected_during_init", "failure_injected_during_compile",
+  "plan_none", "plan_single", "plan_pair", "plan_kind", "plan_from_k", "plan_kinds_from_k", "failure_injected_during_init", "failure_injected_during_compile",
   "native_used", "fallback_used", "backup_called", "code_only_executor", "orc_code_emulate", "orc_code_backup", "orc_code_debug",
   "no_rule_program", "register_exhaustion_program", "env_unset", "env_missing_dir", "init_disabled_jit", NULL
 };
@@ -40,6 +40,8 @@ int __real_mkstemp64 (char *tmpl);
 int __real_ftruncate64 (int fd, off_t len);
 
 enum { K_MKSTEMP = 0, K_FTRUNCATE = 1, K_MMAP = 2 };
+/* finer kinds for plan type 5: bit 0 mkstemp, 1 ftruncate, 2 executable file mapping, 3 writable file mapping, 4 anonymous mapping */
+static int fine_kind;
 static int armed, call_index, n_injected, n_calls_seen;
 static int plan_type, plan_a, plan_b;      /* 0 none, 1 single a, 2 pair a b, 3 kind a, 4 from a on */
 static char created[64][300]; static int n_created;
@@ -55,12 +57,14 @@ static int should_fail (int kind)
     case 2: return k == plan_a || k == plan_b;
     case 3: return kind == plan_a;
     case 4: return k >= plan_a;
+    case 5: return k >= plan_a && (plan_b & (1 << fine_kind));
     default: return 0;
   }
 }
 void *__wrap_mmap64 (void *addr, size_t len, int prot, int flags, int fd, off_t off);
 void *__wrap_mmap64 (void *addr, size_t len, int prot, int flags, int fd, off_t off)
 {
+  fine_kind = fd < 0 ? 4 : (prot & PROT_EXEC) ? 2 : 3;
   if (should_fail (K_MMAP)) { n_injected++; errno = ENOMEM; return MAP_FAILED; }
   return __real_mmap64 (addr, len, prot, flags, fd, off);
 }
@@ -68,6 +72,7 @@ int __wrap_mkstemp64 (char *tmpl);
 int __wrap_mkstemp64 (char *tmpl)
 {
   int fd;
+  fine_kind = 0;
   if (should_fail (K_MKSTEMP)) { n_injected++; errno = EACCES; return -1; }
   fd = __real_mkstemp64 (tmpl);
   if (fd >= 0 && n_created < 64) snprintf (created[n_created++], sizeof created[0], "%s", tmpl);
@@ -76,6 +81,7 @@ int __wrap_mkstemp64 (char *tmpl)
 int __wrap_ftruncate64 (int fd, off_t len);
 int __wrap_ftruncate64 (int fd, off_t len)
 {
+  fine_kind = 1;
   if (should_fail (K_FTRUNCATE)) { n_injected++; errno = ENOSPC; return -1; }
   return __real_ftruncate64 (fd, len);
 }
@@ -109,16 +115,32 @@ static void plan_decode (int idx, int *type, int *a, int *b)
   idx -= PAIRK * (PAIRK - 1) / 2;
   if (idx < 3) { *type = 3; *a = idx; return; }
   idx -= 3;
-  *type = 4; *a = idx % 16;
+  if (idx < 16) { *type = 4; *a = idx; return; }
+  idx -= 16;
+  /* from the k-th call on, every call of the kinds in a mask fails (k < 12, mask 1..31) */
+  *type = 5; *a = (idx / 31) % 12; *b = 1 + idx % 31;
 }
 /* stream: [plan, orc_code, backup, executor, program, env] */
 #define N_REST (5 * 2 * 2 * 3 * 3)
 void vprop_init (int argc, char **argv) { (void) argc; (void) argv; /* no orc_init here: it is part of every case */ }
-uint64_t vprop_enum_count (const char *tier) { (void) tier; return (uint64_t) n_plans * N_REST; }
+#define N_PLANS5 (12 * 31)
+#define N_REST5 (2 * 2 * 2 * 3 * 3)     /* ORC_CODE unset or debug only: the other settings never ask for code memory */
+uint64_t vprop_enum_count (const char *tier) { (void) tier; return (uint64_t) n_plans * N_REST + (uint64_t) N_PLANS5 * N_REST5; }
 size_t vprop_enum_stream (uint64_t i, uint32_t *out, size_t max)
 {
   uint64_t rest = i % N_REST;
   (void) max;
+  if (i >= (uint64_t) n_plans * N_REST) {
+    uint64_t q = i - (uint64_t) n_plans * N_REST;
+    rest = q % N_REST5;
+    out[0] = (uint32_t) n_plans + (uint32_t) (q / N_REST5);
+    out[1] = (rest % 2) ? 3 : 0; rest /= 2;
+    out[2] = (uint32_t) (rest % 2); rest /= 2;
+    out[3] = (uint32_t) (rest % 2); rest /= 2;
+    out[4] = (uint32_t) (rest % 3); rest /= 3;
+    out[5] = (uint32_t) (rest % 3);
+    return 6;
+  }
   out[0] = (uint32_t) (i / N_REST);
   out[1] = (uint32_t) (rest % 5); rest /= 5;
   out[2] = (uint32_t) (rest % 2); rest /= 2;
@@ -168,7 +190,7 @@ void vprop_case (VChoices *c, VResult *r)
   static ProgSpec ps;
   static RunCfg rc;
   static const char *orc_code_vals[5] = { NULL, "emulate", "backup", "debug", "backup,emulate" };
-  int plan = (int) vc_pick (c, (uint32_t) n_plans), oc = (int) vc_pick (c, 5), with_backup = (int) vc_pick (c, 2);
+  int plan = (int) vc_pick (c, (uint32_t) (n_plans + N_PLANS5)), oc = (int) vc_pick (c, 5), with_backup = (int) vc_pick (c, 2);
   int code_only = (int) vc_pick (c, 2), prog = (int) vc_pick (c, 3), env = (int) vc_pick (c, 3);
   const char *scratch_root = v_arg ("scratch", "/verif/_work/scratch");
   char dir[400], msg[700], sig[V_SIG_MAX];
@@ -184,19 +206,20 @@ void vprop_case (VChoices *c, VResult *r)
   snprintf (dir, sizeof dir, "%s/c06-%d", scratch_root, (int) getpid ());
   mkdir (dir, 0700);
   if (env == 0) { setenv ("XDG_RUNTIME_DIR", dir, 1); setenv ("HOME", dir, 1); setenv ("TMPDIR", dir, 1); }
-  else if (env == 1) { unsetenv ("XDG_RUNTIME_DIR"); unsetenv ("HOME"); unsetenv ("TMPDIR"); r->classes |= 1u << 16; }
-  else { setenv ("XDG_RUNTIME_DIR", "/nonexistent/verif/dir", 1); setenv ("HOME", dir, 1); unsetenv ("TMPDIR"); r->classes |= 1u << 17; }
+  else if (env == 1) { unsetenv ("XDG_RUNTIME_DIR"); unsetenv ("HOME"); unsetenv ("TMPDIR"); r->classes |= 1u << 17; }
+  else { setenv ("XDG_RUNTIME_DIR", "/nonexistent/verif/dir", 1); setenv ("HOME", dir, 1); unsetenv ("TMPDIR"); r->classes |= 1u << 18; }
   if (orc_code_vals[oc]) setenv ("ORC_CODE", orc_code_vals[oc], 1); else unsetenv ("ORC_CODE");
   unsetenv ("ORC_DEBUG");
   v_desc (r, "# C06 plan=%s a=%d b=%d ORC_CODE=%s backup_function=%d executor=%s program=%s env=%s\n",
-      plan_type == 0 ? "none" : plan_type == 1 ? "single" : plan_type == 2 ? "pair" : plan_type == 3 ? "kind(0 mkstemp,1 ftruncate,2 mmap)" : "from-k-on",
+      plan_type == 0 ? "none" : plan_type == 1 ? "single" : plan_type == 2 ? "pair" : plan_type == 3 ? "kind(0 mkstemp,1 ftruncate,2 mmap)" : plan_type == 4 ? "from-k-on" :
+      "from call a on every call of the kinds in mask b (1 mkstemp, 2 ftruncate, 4 exec file map, 8 write file map, 16 anonymous map)",
       plan_a, plan_b, orc_code_vals[oc] ? orc_code_vals[oc] : "(unset)", with_backup, code_only ? "code-only" : "attached",
       prog == 0 ? "addw (rules everywhere)" : prog == 1 ? "addd for mmx (no rule)" : "register exhaustion on avx",
       env == 0 ? "dirs=scratch" : env == 1 ? "dirs unset" : "XDG missing dir");
   r->classes |= 1u << plan_type;
-  if (oc == 1 || oc == 4) r->classes |= 1u << 11;
-  if (oc == 2 || oc == 4) r->classes |= 1u << 12;
-  if (oc == 3) r->classes |= 1u << 13;
+  if (oc == 1 || oc == 4) r->classes |= 1u << 12;
+  if (oc == 2 || oc == 4) r->classes |= 1u << 13;
+  if (oc == 3) r->classes |= 1u << 14;
 
   /* 1. library start-up under the plan */
   v_stage (r, "orc_init under fault plan");
@@ -204,31 +227,31 @@ void vprop_case (VChoices *c, VResult *r)
   orc_init ();
   armed = 0;
   injected_init = n_injected;
-  if (injected_init) r->classes |= 1u << 5;
+  if (injected_init) r->classes |= 1u << 6;
   v_desc (r, "# orc_init made %d calls, %d failed by injection\n", n_calls_seen, n_injected);
 
   /* 2. program */
   if (prog == 0) { ps_single (v_op_find ("addw"), 0, &ps); tname = "sse"; }
-  else if (prog == 1) { ps_single (v_op_find ("addd"), 0, &ps); tname = "mmx"; r->classes |= 1u << 14; }
-  else { build_regs_program (&ps); tname = "avx"; r->classes |= 1u << 15; }
+  else if (prog == 1) { ps_single (v_op_find ("addd"), 0, &ps); tname = "mmx"; r->classes |= 1u << 15; }
+  else { build_regs_program (&ps); tname = "avx"; r->classes |= 1u << 16; }
   p = ps_build (&ps);
   if (with_backup) orc_program_set_backup_function (p, my_backup);
   v_stage (r, "compile under fault plan");
   armed = 1;
   res = orc_program_compile_for_target (p, orc_target_get_by_name (tname));
   armed = 0;
-  if (n_injected > injected_init) r->classes |= 1u << 6;
+  if (n_injected > injected_init) r->classes |= 1u << 7;
   v_desc (r, "# compile for %s -> %s; calls so far %d, injected %d\n", tname, v_result_name (res), n_calls_seen, n_injected);
   if (ORC_COMPILE_RESULT_IS_FATAL (res)) { v_fail (r, "fatal-result", "a valid program got the fatal result %s under the fault plan", v_result_name (res)); goto cleanup; }
   native = ORC_COMPILE_RESULT_IS_SUCCESSFUL (res);
-  if (native) r->classes |= 1u << 7; else r->classes |= 1u << 8;
+  if (native) r->classes |= 1u << 8; else r->classes |= 1u << 9;
   expect_backup_flag = with_backup && (oc == 2 || oc == 4);
 
   /* reference: a separate object that is only emulated */
   pref = ps_build (&ps);
   orc_program_compile_full (pref, NULL, 0);
 
-  if (code_only) { code = orc_program_take_code (p); r->classes |= 1u << 10; }
+  if (code_only) { code = orc_program_take_code (p); r->classes |= 1u << 11; }
   {
     RunOpts ro;
     uint32_t fixed[40];
@@ -262,7 +285,7 @@ void vprop_case (VChoices *c, VResult *r)
     }
     if (r->verdict != V_FAIL && with_backup) {
       int calls = backup_calls - before;
-      if (calls) r->classes |= 1u << 9;
+      if (calls) r->classes |= 1u << 10;
       if (native && !expect_backup_flag && calls != 0) v_fail (r, "backup:called-although-native", "compile succeeded but the backup function was called %d time(s)", calls);
       else if (calls > 1) v_fail (r, "backup:not-once", "the backup function was called %d times in one run", calls);
       else if (expect_backup_flag && oc == 2 && calls != 1) v_fail (r, "backup:flag-ignored", "ORC_CODE=%s with a registered backup function: it was called %d times in one run", orc_code_vals[oc], calls);
